@@ -512,6 +512,43 @@ def r6_formatter_dispatch(ctx, sym):
                   "report's file names are rendered with the first mask", construct='FeedbackFieldWrapper.__format__')
 
 
+def r12_wrapper_forwards(ctx, sym):
+    ctx.rule('R12', "str.format reaches `{field.attr}` and `{field[key]}` through FeedbackFieldWrapper.__getattr__ / "
+                    "__getitem__: executed abstractly on a wrapped value, they answer with the value's own attribute "
+                    "or item - whatever its name (`{expected.__name__}`, `{point._fields}`, `{location.line}`) - wrapped "
+                    "again under the same field name and formatter")
+    from .. import symexec
+    mod = ctx.repo.module(FORMATTING)
+    init = mod.func('FeedbackFieldWrapper.__init__')
+    for meth, names in (('__getattr__', ('line', '__name__', '_fields', '__doc__x')), ('__getitem__', (0, 'key'))):
+        fn = mod.func('FeedbackFieldWrapper.' + meth)
+        ctx.analysed_function(mod, fn)
+        for name in names:
+            fmt = Obj('formatter', available=[])
+            inner = Obj('the-attribute-value')
+            raw = Obj('raw-field-value', __closed__=True)
+            if meth == '__getattr__':
+                raw.attrs[name] = inner
+            else:
+                raw.attrs['method:__getitem__'] = lambda k, _n=name: inner if k == _n else (_ for _ in ()).throw(
+                    Raised('KeyError', repr(k)))
+            me = symexec.self_obj(mod, 'FeedbackFieldWrapper')
+            fd = symexec.new_fd(sym, mod)
+            _, raised0 = symexec.run(fd, init, ['expected', raw, fmt], bound_self=me, what='FeedbackFieldWrapper.__init__')
+            got, raised = symexec.run(fd, fn, [name], bound_self=me, what='FeedbackFieldWrapper.' + meth)
+            ok = raised0 is None and raised is None and isinstance(got, Obj) and got.attrs.get('value') is inner and \
+                got.attrs.get('formatter') is fmt and got.attrs.get('key') == 'expected'
+            shown = '{expected.%s}' % name if meth == '__getattr__' else '{expected[%s]}' % name
+            ctx.check(ok, 'R12', 'FeedbackFieldWrapper.%s[%r]' % (meth, name), mod, fn,
+                      "a template reading %s gets %s instead of the value's own %s wrapped under the same field and "
+                      "formatter" % (shown, 'an exception (%s)' % raised.kind if raised is not None else
+                                     (got.attrs if isinstance(got, Obj) else got),
+                                     'attribute' if meth == '__getattr__' else 'item'),
+                      "assert-style feedback with message_template='Expected a {expected.__name__}': rendering raises "
+                      "AttributeError, the feedback is filed as not triggered and the submission resolves as correct",
+                      construct=meth)
+
+
 def r11_initialised_once(ctx, sym):
     ctx.rule('R11', "Feedback.__init__ evaluates the condition and files the object in the report; a constructor of a "
                     "Feedback subclass therefore reaches it at most once: no __init__ in pedal calls "
@@ -781,6 +818,7 @@ def run(ctx):
     r6_formatter_dispatch(ctx, sym)
     r7_overrides(ctx, sym)
     r11_initialised_once(ctx, sym)
+    r12_wrapper_forwards(ctx, sym)
     r8_constructor(ctx, sym)
     r9_parent_kinds(ctx, sym)
     r10_logging_commands(ctx, sym)
